@@ -337,13 +337,6 @@ Section CsvLayer.
 End CsvLayer.
 
 (* ---- executable validity of a transaction list (the domain of C11) ---- *)
-Definition valid_dec (d : dec) : bool :=
-  (d_mant d <=? max_mant) && (d_scale d <=? 28)%nat && negb (d_neg d && (d_mant d =? 0)).
-(* a security: non-empty and without surrounding white space *)
-Definition valid_sec (s : bytes) : bool := negb (is_nil s) && beqb (trim s) s.
-(* a Currency value: as produced by Currency::new on ASCII text *)
-Definition valid_cur (c : bytes) : bool :=
-  negb (is_nil c) && is_ascii c && beqb (upper c) c && beqb (trim c) c.
 Definition valid_car (c : car) : bool :=
   valid_cur (c_cur c) && valid_dec (c_rate c) && dec_pos (c_rate c)
   && (negb (car_is_default c) || dec_is_one (c_rate c)).
@@ -353,15 +346,6 @@ Definition valid_aff (tbl : aftable) (a : affdata) : bool :=
   match tbl_find (a_id a) tbl with Some b => affdata_eqb a b | None => false end
   && negb (is_nil (a_name a)) && beqb (trim (a_name a)) (a_name a)
   && beqb (a_id (from_strep_data (a_name a))) (a_id a).
-Definition valid_sfl (v : sflin) : bool := valid_dec (sf_val v) && dec_lez (sf_val v).
-Definition int_part (d : dec) : N := d_mant d / pow10 (d_scale d).
-(* a SplitRatio: the invariants of SplitRatio::parse (integer-only flag only
-   on whole-number reverse splits) and terms whose "{:.1}" rendering fits *)
-Definition valid_ratio (r : ratio) : bool :=
-  valid_dec (r_post r) && valid_dec (r_pre r) && dec_pos (r_post r) && dec_pos (r_pre r)
-  && (negb (r_rio r) || (ratio_is_reverse r && dec_is_integer (r_post r) && dec_is_integer (r_pre r)))
-  && (negb (dec_is_integer (r_post r) && dec_is_integer (r_pre r) && ratio_is_reverse r && negb (r_rio r))
-      || ((int_part (r_post r) * 10 <=? max_mant) && (int_part (r_pre r) * 10 <=? max_mant))).
 Definition valid_act (a : cact) : bool :=
   match a with
   | XBuy sh aps com cr ccr =>
@@ -379,7 +363,6 @@ Definition valid_tx (tbl : aftable) (t : ctx) : bool :=
   && valid_aff tbl (x_af t).
 
 (* ---- "the same transaction" after a round trip ---- *)
-Definition dec_eqv (a b : dec) : bool := Bool.eqb (d_neg a) (d_neg b) && mag_eqb a b.
 Definition car_eqv (a b : car) : bool := beqb (c_cur a) (c_cur b) && dec_eqv (c_rate a) (c_rate b).
 Definition ocar_eqv (a b : option car) : bool :=
   match a, b with Some x, Some y => car_eqv x y | None, None => true | _, _ => false end.
